@@ -63,6 +63,11 @@ where
     }
 
     fn is_bareword(s: &str) -> bool {
+        // NULL is the one name of bareword shape that the tokenizer reads as a
+        // different token, so it has to stay quoted.
+        if s == "NULL" {
+            return false;
+        }
         match s.chars().nth(0) {
             Some(c) => {
                 // The tokenizer only starts a bareword at a letter.
